@@ -12,7 +12,8 @@ import (
 )
 
 // C20: scripted evaluator / observer through the real Experiment.Execute.
-// outcomes: 0 unsolved, 1 solved, 2 evaluator error, 3 cancel (unsolved), 4 cancel and solved.
+// outcomes: 0 unsolved, 1 solved, 2 evaluator error, 3 cancel (unsolved), 4 cancel and solved,
+// 5 the evaluator marks the generation solved AND returns an error, 6 it cancels AND returns an error.
 
 func init() {
 	runners["C20"] = runC20
@@ -95,6 +96,12 @@ func (e *c20Env) GenerationEvaluate(_ context.Context, pop *genetics.Population,
 	case 4:
 		e.cancel()
 		epoch.Solved = true
+	case 5:
+		epoch.Solved = true
+		return errEvalC20
+	case 6:
+		e.cancel()
+		return errEvalC20
 	}
 	return nil
 }
@@ -222,7 +229,8 @@ func c20Spec(in c20Input) (trace [][]int64, status int) {
 				return trace, 2
 			}
 			trace = append(trace, []int64{2, int64(t), int64(g), int64(t), int64(turns)})
-			if o == 2 {
+			if o == 2 || o == 5 || o == 6 {
+				// an evaluator error ends the run at once, whatever else the evaluator did in that call
 				return trace, 1
 			}
 			if o == 3 || o == 4 {
@@ -294,7 +302,7 @@ func c20One(r *Run, cf *CaseFile, id int, in c20Input) {
 }
 
 func runC20(r *Run) error {
-	r.Res.Rule = "scripts of outcomes {unsolved, solved, eval error, cancel, cancel+solved} per (trial, generation), with and without observer; " +
+	r.Res.Rule = "scripts of outcomes {unsolved, solved, eval error, cancel, cancel+solved, solved+error, cancel+error} per (trial, generation), with and without observer; " +
 		"exhaustive for runs<=R, gens<=G plus random larger scripts; non-trivial = script uses >= 2 outcome kinds; distinct by observed trace"
 	maxRuns, maxGens := 2, 2
 	if r.Thorough() {
@@ -321,9 +329,13 @@ func runC20(r *Run) error {
 				if runs == 0 && gens > 0 {
 					continue
 				}
+				base := 5
+				if runs*gens <= 3 {
+					base = 7 // small scripts also over "solved and error" / "cancel and error"
+				}
 				total := 1
 				for i := 0; i < runs*gens; i++ {
-					total *= 5
+					total *= base
 				}
 				for code := 0; code < total; code++ {
 					script := make([][]int, runs)
@@ -331,8 +343,8 @@ func runC20(r *Run) error {
 					for t := range script {
 						script[t] = make([]int, gens)
 						for g := range script[t] {
-							script[t][g] = c % 5
-							c /= 5
+							script[t][g] = c % base
+							c /= base
 						}
 					}
 					add(c20Input{Obs: obs, Script: script})
@@ -350,7 +362,7 @@ func runC20(r *Run) error {
 			script[t] = make([]int, gens)
 			for g := range script[t] {
 				if r.Rng.Float64() < 0.25 {
-					script[t][g] = 1 + r.Rng.Intn(4)
+					script[t][g] = 1 + r.Rng.Intn(6)
 					if r.Rng.Float64() < 0.5 {
 						script[t][g] = 1
 					}
@@ -368,7 +380,7 @@ func runC20(r *Run) error {
 			script[t] = make([]int, gens)
 			for g := range script[t] {
 				if r.Rng.Float64() < 0.3 {
-					script[t][g] = 1 + r.Rng.Intn(4)
+					script[t][g] = 1 + r.Rng.Intn(6)
 				}
 			}
 		}
